@@ -4,3 +4,8 @@ CHECKS['C05'] = dict(
     text='Generated-input search: ~80k texts/token sequences per quick run (millions thorough) against a tiling + independent-decoder oracle, exact recovery of generated token sequences, and error-position agreement; finds counterexamples, does not prove absence.',
     note='Trusted: CPython re/str, Hypothesis, my 30-line escape decoder. Simple (non-hex) escapes and COMMENT/at-keyword value decoding are not asserted; EOF position unchecked after a completion.',
 )
+CHECKS['C10'] = dict(
+    technique='model-based property testing (Hypothesis operation sequences vs. a reference ordered-multimap model, compared after every step) + exhaustive DOM-name table',
+    text='Generated operation histories (~9k per quick run, 300k thorough) over all set/remove/item/attribute/cssText operations executed in lock-step on the library and on a 40-line reference model; all known property names enumerated for the DOM-name mapping. Exploration, not proof.',
+    note='Trusted: reference model written from the property statement; value canonical forms from a fixed hand-checked table; API names vary by case and simple escapes only; normalize=False variants not exercised.',
+)
